@@ -712,7 +712,8 @@ func (s *Scanner) isTautology(expr *ast.BinaryExpression) bool {
 	rightIdent, rightIsIdent := expr.Right.(*ast.Identifier)
 
 	if leftIsIdent && rightIsIdent {
-		if leftIdent.Name == rightIdent.Name {
+		// t.col = u.col compares two different columns (a join condition), not a column with itself
+		if leftIdent.Name == rightIdent.Name && leftIdent.Table == rightIdent.Table {
 			return true
 		}
 	}
